@@ -49,6 +49,28 @@ func checkC05(run *mon.Run, rng *mon.Rand, thorough bool) {
 			run.Check("C05.positive_period_only", p > 0, "c05.nonpositive_period_accepted_l2_validate", nil, "BridgeConfig.ValidateWithNoAddrValidation accepted period %d ns", int64(p))
 		}
 		_ = ophosttypes.ModuleName
+		// the same period offered through a genesis file: the chain started from it must not carry such a bridge
+		if p <= 0 {
+			src := newL1Env(1, []time.Duration{10 * time.Second})
+			gs := src.L1.K.ExportGenesis(src.L1.Ctx)
+			gs.Bridges[0].BridgeConfig.FinalizationPeriod = p
+			dst := sim.NewL1(sim.L1Opts{})
+			dst.AK.InitGenesis(dst.Ctx, *src.L1.AK.ExportGenesis(src.L1.Ctx))
+			dst.BK.InitGenesis(dst.Ctx, src.L1.BK.ExportGenesis(src.L1.Ctx))
+			refused := func() (refused bool) {
+				defer func() {
+					if r := recover(); r != nil {
+						refused = true
+					}
+				}()
+				dst.K.InitGenesis(dst.Ctx, gs)
+				return false
+			}()
+			run.Evaluations++
+			cfg2, err := dst.K.GetBridgeConfig(dst.Ctx, 1)
+			run.Check("C05.positive_period_only", refused || err != nil || cfg2.FinalizationPeriod > 0, "c05.nonpositive_period_accepted_by_genesis", []string{fmt.Sprintf("genesis with bridge 1 FinalizationPeriod=%d ns imported by InitGenesis", int64(p))}, "InitGenesis accepted a bridge with finalization period %s (%d ns): its outputs are final the moment they are proposed", p, int64(p))
+			run.Distinct(fmt.Sprintf("C05/genesis/period=%d/refused=%v", int64(p), refused))
+		}
 	}
 
 	c05Lattice(run, rng)
